@@ -484,6 +484,46 @@ def _only_looked_up(mod, fnode, target):
     return True
 
 
+def _keyed_store_competes(loop, key, value):
+    """A store `d[key] = value` / `d.setdefault(key, value)` in the body of a loop over an unordered collection gives the same
+    mapping for every iteration order when distinct elements never compete for one key with different values: the key determines
+    the element (the loop variable itself, or a tuple / f-string-free expression that contains it as a component), or the value
+    does not depend on the element.  Otherwise the reason (which element wins depends on the iteration order); None when fine.
+    Per-iteration temporaries count as element-dependent; a key that is such a temporary is followed to its single definition."""
+    tnames = {n.id for n in ast.walk(loop.target) if isinstance(n, ast.Name)}
+    assigned = {}
+    for b in loop.body:
+        for n in ast.walk(b):
+            if isinstance(n, ast.Name) and isinstance(n.ctx, ast.Store):
+                assigned.setdefault(n.id, []).append(n)
+    dependent = tnames | set(assigned)
+    if not any(isinstance(n, ast.Name) and n.id in dependent for n in ast.walk(value)):
+        return None                                   # every competitor stores the same thing
+    single = isinstance(loop.target, ast.Name)
+
+    def determines(e, hops=0):
+        if isinstance(e, ast.Name):
+            if single and e.id in tnames and e.id not in assigned:
+                return True
+            if e.id in assigned and len(assigned[e.id]) == 1 and hops < 3:
+                for b in loop.body:
+                    if isinstance(b, ast.Assign) and len(b.targets) == 1 and b.targets[0] is assigned[e.id][0]:
+                        return determines(b.value, hops + 1)
+            return False
+        if isinstance(e, ast.Tuple):
+            if not single and {x.id for x in e.elts if isinstance(x, ast.Name)} >= tnames and not (tnames & set(assigned)):
+                return True                            # for a, b in pairs: d[(a, b)] = ...
+            return any(determines(x, hops) for x in e.elts)
+        return False
+
+    if determines(key):
+        return None
+    if not single and isinstance(loop.target, ast.Tuple) and isinstance(key, ast.Name) and key.id in tnames and key.id not in assigned \
+            and isinstance(loop.iter, ast.Call) and isinstance(loop.iter.func, ast.Attribute) and loop.iter.func.attr == "items":
+        return None                                    # for k, v in mapping.items(): keys of a mapping are distinct
+    return f"key {ast.unparse(key)[:40]} does not determine the element and the stored value depends on it -- which element wins follows the <set> order"
+
+
 def _commutative_body(stmts, fnode=None, loop=None, collected=None, mod=None):
     """True when executing the body for the elements in any order gives the same final state; otherwise a short reason.
     `collected` (a set) receives the names of local lists the body appends to: their order is the iteration order."""
@@ -504,6 +544,12 @@ def _commutative_body(stmts, fnode=None, loop=None, collected=None, mod=None):
                        for x in ast.walk(fnode) if isinstance(x, ast.Name) and x.id == tg.id and isinstance(x.ctx, ast.Load)):
                     continue
         if isinstance(s, ast.Expr) and isinstance(s.value, ast.Call) and isinstance(s.value.func, ast.Attribute) and s.value.func.attr in COMMUTATIVE_METHODS:
+            c_ = s.value
+            if c_.func.attr == "setdefault" and len(c_.args) == 2 and loop is not None:
+                # d.setdefault(key, value): the FIRST element with that key wins -- order-free only when no two elements compete
+                why = _keyed_store_competes(loop, c_.args[0], c_.args[1])
+                if why:
+                    return f"line {s.lineno}: {ast.unparse(c_.func.value)}.setdefault: {why}"
             continue       # set insertion / removal, dict.setdefault, log messages (PY-LOG: not part of any result)
         if isinstance(s, ast.Expr) and isinstance(s.value, ast.Constant):
             continue
@@ -530,6 +576,9 @@ def _commutative_body(stmts, fnode=None, loop=None, collected=None, mod=None):
         # (insertion) order: no iteration / items() / values() / keys() / list() of it, only lookups
         if isinstance(s, ast.Assign) and len(s.targets) == 1 and isinstance(s.targets[0], ast.Subscript) \
                 and isinstance(s.targets[0].value, (ast.Name, ast.Attribute)):
+            why = _keyed_store_competes(loop, s.targets[0].slice, s.value) if loop is not None else None
+            if why:                      # the LAST element with that key wins
+                return f"line {s.lineno}: {ast.unparse(s.targets[0].value)}[...] = ...: {why}"
             if mod is None or _only_looked_up(mod, fnode, s.targets[0].value):
                 continue
             return f"line {s.lineno}: {ast.unparse(s.targets[0].value)} is filled in <set> order and iterated elsewhere"
